@@ -187,7 +187,7 @@ class Tracker:
 
 NS = 6
 # operations whose results must never share storage with another live object
-UNSHARED_OPS = {"newvec", "copy", "slice", "arith", "tabfrom", "stack", "setattr", "burst", "concat"}
+UNSHARED_OPS = {"newvec", "copy", "pycopy", "slice", "arith", "tabfrom", "stack", "setattr", "burst", "concat"}
 
 
 def choose(rng, w):
@@ -197,10 +197,11 @@ def choose(rng, w):
     dst = rng.randrange(NS)
     menu = [("newvec", 4), ("sharetuple", 3), ("burst", 4), ("gc", 1), ("drop", 3), ("pool", 1)]
     if vecs:
-        menu += [("shareof", 3), ("copy", 1), ("slice", 1), ("write", 10), ("arith", 1), ("tabfrom", 2), ("concat", 3)]
+        menu += [("shareof", 3), ("copy", 1), ("pycopy", 2), ("slice", 1), ("write", 10), ("arith", 1), ("tabfrom", 2), ("concat", 3)]
     if len(vecs) >= 1:
         menu += [("stack", 4)]
     if tabs:
+        menu += [("pycopy_t", 2)]
         menu += [("getcol", 4), ("tabwrite_view", 2), ("write_cell", 4), ("share_col", 2), ("rowfail", 3)]
     if tabs and vecs:
         menu += [("setattr", 3)]
@@ -219,6 +220,11 @@ def choose(rng, w):
         return {"op": op, "dst": dst, "src": rng.choice(vecs), "key": rng.choice([[None, None], [0, None], [None, 2], [0, 2], [1, None], [0, 1], [-3, None]])}
     if op in ("shareof", "copy", "arith"):
         return {"op": op, "dst": dst, "src": rng.choice(vecs)}
+    if op == "pycopy":
+        # copy.copy / copy.deepcopy / Vector(v): copies like any other — own storage, known to the tracker
+        return {"op": "pycopy", "dst": dst, "src": rng.choice(vecs), "how": rng.choice(["copy", "deepcopy", "ctor"])}
+    if op == "pycopy_t":
+        return {"op": "pycopy", "dst": dst, "src": rng.choice(tabs), "how": rng.choice(["copy", "deepcopy"])}
     if op == "concat":
         # `<<` with nothing to add on one side: the result is still an operation result with storage of its own
         return {"op": op, "dst": dst, "src": rng.choice(vecs), "form": rng.choice(["list0", "vec0", "rlist0", "tuple0", "vec0l", "list1", "mask0", "sort"])}
@@ -319,6 +325,11 @@ def run_step(slots, pool, st):
         src = slots[st["src"]]
         slots[st["dst"]] = src[st.get("key", [0, 2])[0]:st.get("key", [0, 2])[1]]
         del src
+    elif op == "pycopy":
+        import copy as _copy
+        src = slots[st["src"]]
+        slots[st["dst"]] = (_copy.copy(src) if st["how"] == "copy" else _copy.deepcopy(src) if st["how"] == "deepcopy" else Vector(src))
+        del src
     elif op == "arith":
         slots[st["dst"]] = slots[st["src"]] + 1
     elif op == "concat":
@@ -405,6 +416,8 @@ def applicable(kinds, st):
     op = st["op"]
     if op in ("shareof", "copy", "slice", "arith", "concat"):
         return k(st["src"]) == "v"
+    if op == "pycopy":
+        return k(st["src"]) in ("v", "t") and (st["how"] != "ctor" or k(st["src"]) == "v")
     if op == "write":
         return k(st["r"]) == "v"
     if op == "tabfrom":
